@@ -74,6 +74,25 @@ def run(chk):
                     chk.decide(ok, "qed-iterate-generator-reduces-to-qcd", fs.qname,
                                f"QED iteration step exponent at a_em=0 differs from the pure-QCD singlet step exponent ({inst})",
                                where=fs.where, instance=inst, data={"witness": info}, how="PE + PIT F_p")
+                    if nfc != 4:
+                        continue
+                    # several steps on the same coupling grid: the whole kernels (products of the same uninterpreted
+                    # exponentials) must coincide, i.e. also the ORDER of the step operators
+                    from fractions import Fraction
+
+                    its = 3
+                    ratio = dag.div(a1, a0)
+                    grid = [a0] + [dag.mul(a0, dag.power(ratio, Fraction(i, its))) for i in range(1, its)] + [a1]
+                    as_l = Arr.from_nested(grid)
+                    a_h = Arr.from_nested([[dag.div(dag.add(grid[i + 1], grid[i]), 2), 0] for i in range(its)])
+                    Kq = pe.call(fs.qname, [(n, m), M["ITERATE_EXACT"], G, as_l, a_h, nfc, its, (10, 0)])
+                    Kc = pe.call(f"{kern.SG}.dispatcher", [(n, 0), M["ITERATE_EXACT"], Gq, a1, a0, nfc, its, (n, 0)])
+                    ok, info = dag.is_zero_fp(kern.mat_sub(Kq, Kc).flat(), chk.seed, 2)
+                    n_inst += 1
+                    chk.decide(ok, "qed-iterated-kernel-reduces-to-qcd", fs.qname,
+                               f"with a_em=0 and {its} identical coupling steps the QED iterated kernel is not the pure-QCD iterated "
+                               f"kernel (same step exponentials, different product) ({inst})", where=fs.where, instance=inst,
+                               data={"witness": info}, how="PE + PIT F_p")
     finally:
         pe.overrides.pop("ekore.anomalous_dimensions.exp_matrix_2D", None)
     chk.floor("instances", n_inst, 32 + 24)
